@@ -207,7 +207,39 @@ def s4_docs(tier):
             yield ("S4", "svg-transform", t), doc(f'<svg x="10" y="10" width="50" height="40" viewBox="0 0 25 20" overflow="visible" transform="{t}"><rect x="2" y="3" width="18" height="9" fill="red"/></svg>')
 
 
+# -- S5: magnitudes -------------------------------------------------------
+
+
+def s5_docs(tier):
+    """the same picture drawn in units of 10^k and scaled back by 10^-k: valid transforms whose determinant is tiny / huge"""
+
+    def f(v, m):
+        return f"{v * m:.10g}"
+
+    ks = [-4, -3, -2, 2, 3, 4, 5, 6] if tier == "quick" else [-6, -5, -4, -3, -2, -1, 1, 2, 3, 4, 5, 6, 7]
+    for k in ks:
+        m = 10.0 ** k
+        inv = f"{10.0 ** -k:.10g}"
+        shapes = {
+            "rect": f'<rect x="{f(30, m)}" y="{f(35, m)}" width="{f(25, m)}" height="{f(18, m)}" fill="red"/>',
+            "poly": f'<polygon points="{f(30, m)},{f(30, m)} {f(58, m)},{f(36, m)} {f(41, m)},{f(55, m)}" fill="orange"/>',
+            "curve": f'<path d="M{f(28, m)} {f(45, m)} C{f(32, m)} {f(20, m)} {f(52, m)} {f(20, m)} {f(56, m)} {f(45, m)} Z" fill="navy"/>',
+            "circle": f'<circle cx="{f(45, m)}" cy="{f(42, m)}" r="{f(11.5, m)}" fill="blue"/>',
+        }
+        for name, sh in shapes.items():
+            yield ("S5", name, f"g-scale-1e{-k}"), doc(f'<g transform="scale({inv})">{sh}</g>')
+            yield ("S5", name, f"own-scale-1e{-k}"), doc(sh.replace("/>", f' transform="scale({inv})"/>'))
+            if k % 2 == 0:
+                h = f"{10.0 ** (-k // 2):.10g}"
+                yield ("S5", name, f"two-scales-1e{-k}"), doc(f'<g transform="scale({h})"><g transform="scale({h})">{sh}</g></g>')
+            # tiny scale undone by a descendant: nothing is small in the end
+            yield ("S5", name, f"undone-1e{-k}"), doc(f'<g transform="scale({inv})"><g transform="scale({m:.10g})">{shapes[name].replace(f(30, m), "30") if False else SHAPES1["rect"].format(t="")}</g></g>')
+            yield ("S5", name, f"nested-viewbox-1e{k}"), doc(f'<svg x="10" y="10" width="80" height="80" viewBox="0 0 {f(100, m)} {f(100, m)}">{sh}</svg>')
+            yield ("S5", name, f"use-scale-1e{-k}"), doc(f'<use xlink:href="#t" transform="scale({inv})"/>', defs=sh.replace("<", '<', 1).replace(" fill=", ' id="t" fill=', 1))
+
+
 def all_docs(tier):
+    yield from s5_docs(tier)
     yield from s1_docs(tier)
     yield from s2_docs(tier)
     yield from s3_docs(tier)
@@ -236,7 +268,8 @@ def run(run):
         "E2 + R3. S1: 12 shapes (7 basic shapes, 5 path variants) x transform lists of length 0-2 over 8 transforms; S2: ancestor chains of length <= 2 (quick) / 3 (+ depth 4 g-only) "
         "over 11 level kinds {g, g+transform x4, use x/y | transform | both, nested svg plain | viewBox meet | viewBox slice} x 3 leaves x own transform; S3: all arrangements "
         "of 2 (3) items from 8 (shapes, use instances of shared targets, groups) with display:none on each item, hidden use targets; S4: nested svg viewports: 3 boxes x 5 viewBoxes "
-        "(incl. numerically equal to the element's own x y width height) x 20 preserveAspectRatio x overflow {absent, hidden, visible}, two-level nesting and SVG 2 transform (thorough). "
+        "(incl. numerically equal to the element's own x y width height) x 20 preserveAspectRatio x overflow {absent, hidden, visible}, two-level nesting and SVG 2 transform (thorough); "
+        "S5: 4 shapes drawn in units of 10^k (k in -4..6; thorough -6..7) and scaled back by group / own / two composed / use transforms or a nested-svg viewBox, and tiny scales undone by a descendant. "
         "Oracle: canonical paint stacks and composites of source vs output equal at every lattice/probe point outside the 0.4% band; output free of transform/use/svg (R4). "
         "Non-trivial = >= 30 compared points inside some layer and >= 30 outside all (distinct documents)."
     )
